@@ -1031,6 +1031,8 @@ class Origins:
                         out += self.elements(g, n.args[0], d, seen, pos)
                     elif a == "setdefault":
                         out += self.value(g, n.args[0], d, seen, pos)
+                elif isinstance(n, ast.Call) and _call_name(n) in ("insort", "insort_left", "insort_right", "heappush") and len(n.args) >= 2 and norm(n.args[0]) == text:
+                    out += self.value(g, n.args[1], d, seen, pos)
                 elif isinstance(n, (ast.Assign, ast.AugAssign, ast.AnnAssign)):
                     for t in n.targets if isinstance(n, ast.Assign) else [n.target]:
                         if isinstance(t, ast.Subscript) and norm(t.value) == text and not isinstance(t.slice, ast.Slice):
@@ -1103,7 +1105,7 @@ def _leaf_status(repo: Repo, g: FuncInfo, e: ast.expr, kind: str, depth: int) ->
             return "bare"
         if nm in NAME_FUNCS:
             return "bare"
-        if isinstance(fn, ast.Attribute) and nm in ("rstrip", "strip", "removesuffix") and e.args and "." in (_const_str(e.args[0]) or ""):
+        if isinstance(fn, ast.Attribute) and nm in ("rstrip", "strip", "removesuffix") and e.args and "." in (_const_str(e.args[0]) or fold(repo, g.module, e.args[0], g) or ""):
             return "bare"
         if isinstance(fn, ast.Attribute) and nm == "join" and len(e.args) == 1:
             # the last element, not the separator, ends the joined string - unless that element is empty
@@ -1983,6 +1985,14 @@ def _expand_names(repo: Repo, f: FuncInfo, e: ast.AST, depth: int = 0):
                 return rec(v, d + 1)
         if isinstance(x, (ast.Lambda, ast.ListComp, ast.SetComp, ast.DictComp, ast.GeneratorExp)):
             return _clone(x)
+        if isinstance(x, ast.Name) and isinstance(x.ctx, ast.Load) and not _is_local(f, x.id) and (f.outer is None or not _is_local(f.outer, x.id)):
+            c = _const_str(_module_constant(repo, f, x.id))
+            if c is not None:
+                return ast.Constant(value=c)
+        if isinstance(x, ast.Attribute) and isinstance(x.ctx, ast.Load):
+            c = _attr_constant(repo, types_of(repo), f, x)
+            if c is not None:
+                return ast.Constant(value=c)
         new = type(x)()
         for fld in x._fields:
             if hasattr(x, fld):
@@ -2205,7 +2215,8 @@ def _raw_test_is_guarded(repo: Repo, f: FuncInfo, test: ast.expr, hay_e: ast.exp
                 v = to_formula(e_.value, subst)
                 if v == ("const", False):
                     continue  # "no": never wrong for a string that only has the raw prefix
-                whole = f_and([ge, v]) if isinstance(e_.value, (ast.BoolOp, ast.Compare, ast.UnaryOp, ast.Call)) and _evidence_goal(repo, f, f_and([ge, v]), hay_e, needle_e) is not None and _evidence_goal(repo, f, ge, hay_e, needle_e) is None else ge
+                if isinstance(e_.value, (ast.BoolOp, ast.Compare, ast.UnaryOp)):
+                    whole = f_and([ge, v])  # a returned condition: only its truth ("yes") has to be backed by evidence
             if not _has_evidence(repo, f, whole, hay_e, needle_e):
                 # the branch taken when the next character is known NOT to be a separator is a decision on the boundary as well
                 # (only a test of the next *character* decides it: `H != N` alone says nothing about what follows)
@@ -3013,6 +3024,23 @@ def _scan(repo: Repo) -> list[Site]:
                         sites.append(Site(f, n, op, hay, n.args[1], True, "unknown", f"`{norm(n, 80)}`: cannot establish whether the prefixes end with the separator '.'"))
                     else:
                         sites.append(Site(f, n, op, hay, n.args[1], True, "unsafe", f"`{norm(n, 80)}`: raw string {op} test on a module name, applied through the bound method"))
+                # ---- a range of the sorted names delimited by a constructed key: bisect(names, name + "~")
+                elif isinstance(n, ast.Call) and (repo.resolve_name(f.module, n.func) or "").startswith("bisect.bisect") and len(n.args) >= 2:
+                    key_e = _expand(repo, f, n.args[1])
+                    if "NAME" not in tagged(n.args[1]):
+                        continue
+                    tail = key_e.values[-1] if isinstance(key_e, ast.JoinedStr) and key_e.values else (key_e.right if isinstance(key_e, ast.BinOp) and isinstance(key_e.op, ast.Add) else None)
+                    if tail is None:
+                        continue  # the position of the name itself
+                    c = _const_str(tail)
+                    if c is None and isinstance(tail, (ast.Name, ast.Attribute)):
+                        c = fold(repo, f.module, tail, f) or (_attr_constant(repo, T, f, tail) if isinstance(tail, ast.Attribute) else None)
+                    if c in (".", "/"):
+                        sites.append(Site(f, n, "bisect", n.args[0], n.args[1], True, "safe", "the block of sub modules in the sorted names is delimited by the separator ('.') and its successor ('/')"))
+                    elif c is not None:
+                        sites.append(Site(f, n, "bisect", n.args[0], n.args[1], True, "unsafe", f"`{norm(n, 80)}`: the sorted names between the module name and the name followed by {c!r} are all names that have it as raw string prefix ('pkg.ab', 'pkg.a_b' for 'pkg.a'), not only its sub modules"))
+                    else:
+                        sites.append(Site(f, n, "bisect", n.args[0], n.args[1], True, "unknown", f"`{norm(n, 80)}`: a range of the sorted names is delimited by a key built from a module name; cannot establish that it ends right after the separator"))
                 # ---- library functions that compare names character by character
                 elif isinstance(n, ast.Call) and (repo.resolve_name(f.module, n.func) or "") in ("os.path.commonprefix", "posixpath.commonprefix", "fnmatch.fnmatch", "fnmatch.fnmatchcase", "fnmatch.filter") and n.args:
                     fq = repo.resolve_name(f.module, n.func)
